@@ -2,7 +2,6 @@ package main
 
 import (
 	"go/ast"
-	"go/token"
 	"regexp"
 	"strings"
 )
@@ -168,5 +167,3 @@ func c17Inner(t string) string {
 	t = strings.TrimSuffix(t, "}")
 	return strings.TrimSpace(t)
 }
-
-var _ = token.NoPos
